@@ -150,6 +150,15 @@ def trees() -> List[Dict[str, Any]]:
     ]
     T("range_symbol_bounds_float", kids, {"float": ["2.5"]}, {"absent": None, "hand": "CONFIG_A=y\nCONFIG_FH=9.5\n"}, {"off.cfg": "# CONFIG_A is not set\n"}, weight=9)
 
+    # several ranges on one option: a conditional one (can be switched off in the session) before the fallback range
+    kids = [
+        Cfg("A", "bool", prompt="a", defaults=[(L("y"), None)]),
+        Cfg("R", "int", prompt="r", ranges=[(L("1"), L("6"), S("A")), (L("1"), L("64"), None)], defaults=[(L("4"), None)]),
+        Cfg("H", "hex", prompt="h", ranges=[(L("0x1"), L("0x6"), Not(S("A"))), (L("0x1"), L("0x10"), None)], defaults=[(L("0x4"), None)]),
+        Cfg("F", "float", prompt="f", ranges=[(L("0.5"), L("4.5"), S("A")), (L("0.5"), L("1000.5"), None)], defaults=[(L("1.5"), None)]),
+    ]
+    T("conditional_range_before_fallback", kids, {"int": ["7", "65"], "hex": ["0x7", "0x11"], "float": ["5.5"]}, {"absent": None, "hand": "# CONFIG_A is not set\n"}, {"off.cfg": "# CONFIG_A is not set\n"}, weight=9)
+
     # every scalar type with and without a range
     kids = [
         Cfg("I", "int", prompt="i", defaults=[(L("1"), None)]),
